@@ -21,7 +21,6 @@ import (
 	"fmt"
 	"os"
 	"runtime"
-	"runtime/pprof"
 	"strconv"
 	"sync"
 	"time"
@@ -62,11 +61,6 @@ func main() {
 	if one := os.Getenv("C38_ONE"); one != "" { // development aid: one configuration in this process, report on stdout
 		i, _ := strconv.Atoi(one)
 		in, _ := json.Marshal(genConfig(r, i))
-		if pf := os.Getenv("C38_PROF"); pf != "" {
-			f, _ := os.Create(pf)
-			_ = pprof.StartCPUProfile(f)
-			defer pprof.StopCPUProfile()
-		}
 		fmt.Printf("%s\n%s\n", in, runConfig(in))
 		return
 	}
